@@ -1456,6 +1456,8 @@ def cells(tier, seed):
         out.append({"kind": "cond", "spec": name, "cat": k0})
     # long cells first so that the pool is balanced
     out.sort(key=lambda c: -(c.get("dim", 0) if c["kind"] == "gauss" else (c.get("n", 0) if c.get("n", 0) > 9 else 0)))
+    from checks import _reassign
+    out.extend(_reassign.cells(tier, seed))     # E1 add-on: use -> assign -> use histories on one live object
     return out
 
 
@@ -1472,6 +1474,17 @@ _DISPATCH = {"gauss": _eval_gauss, "lognormal": _eval_lognormal, "gallery": _eva
              "gen": _eval_gen, "mhn": _eval_mhn, "disc": _eval_disc, "cond": _eval_cond}
 
 
+def _reassign_observe(obj, pts):
+    from checks._reassign import obs_call
+    out = {}
+    out["sample(rng)"] = obs_call(lambda: obj.sample(3, rng=np.random.RandomState(11)))
+    out["sample-one(rng)"] = obs_call(lambda: obj.sample(1, rng=np.random.RandomState(5)))
+    return out
+
+
 def eval_cell(cell):
+    if cell.get("fam") == "reassign":
+        from checks import _reassign
+        return _reassign.eval_cell(cell, PROPERTY, _reassign_observe, "seeded draws live vs fresh")
     res = CellResult(cell)
     return _DISPATCH[cell["kind"]](cell, res)
